@@ -171,6 +171,17 @@ def run(ctx):
     if not bad:
         chk.ok("R03.b", solve.qualname, solve.loc(), f"{n_solve} paths to Solve(): all model-building calls precede it")
     _shapes(ctx, cls)
+    # integer model data must not pass through the float32 views of the instance
+    Fl = ctx.norm.flat(solve, depth=3)
+    lossy = [n for n in own_nodes(Fl.node) if isinstance(n, ast.Attribute) and n.attr in ("durations_matrix_array", "machines_matrix_array")]
+    for n in lossy[:1]:
+        chk.violation(
+            "R03.b", Fl, n,
+            f"the model is built from instance.{n.attr}, a float32 view: sums of durations at or above 2**24 are "
+            "rounded, so bounds/constraints derived from it are off by a few units and the solver proves "
+            "'optimal' for a wrong (over- or under-constrained) model",
+            loc=Fl.loc(n),
+        )
 
     # ---------------------------------------------------------------- R03.c
     _status(ctx, cls, solve)
